@@ -12,6 +12,7 @@ from vlib.common import Sub, Violation, call, close
 pyrepseq = boot.import_pyrepseq()
 
 PROPERTY = "C16"
+QUICK_SCALE = 4
 RULE = ("frequency-of-frequency vectors of length 1..8 with entries 0..10^6 (f2 = 0 and f2 > 0 both common) as lists and int "
         "arrays, m in 1..20; collections as lists, tuples, sets, frozensets, Series (arbitrary index), with duplicates, with "
         "missing values (None, np.nan, fresh float('nan') / np.float64('nan') objects, pd.NA) anywhere for overlap / overlap_coefficient and inside Series only for jaccard_index, "
@@ -161,8 +162,16 @@ def overlap_case(draw, tier="quick"):
     fn = draw(st.sampled_from(["jaccard_index", "overlap", "overlap_coefficient"]))
     kind = draw(st.sampled_from(["str", "int"]))
     pool = ["CASSL", "CASSF", "CAWY", "x", "y z", "é"] if kind == "str" else [1, 2, 3, 5, 8, 13]
-    A = draw(st.lists(st.sampled_from(pool), min_size=1, max_size=8))
-    B = draw(st.lists(st.sampled_from(pool), min_size=1, max_size=8))
+    if draw(st.booleans()):
+        # a common part and a private part on each side (proper, non-empty intersection), with duplicates, shuffled
+        perm = list(draw(st.permutations(pool)))
+        nc, na, nb = draw(st.integers(1, 2)), draw(st.integers(1, 2)), draw(st.integers(1, 2))
+        common, pa, pb = perm[:nc], perm[nc:nc + na], perm[nc + na:nc + na + nb]
+        A = list(draw(st.permutations(common + pa + common[:1])))
+        B = list(draw(st.permutations(pb + common + pb[:1])))
+    else:
+        A = draw(st.lists(st.sampled_from(pool), min_size=1, max_size=8))
+        B = draw(st.lists(st.sampled_from(pool), min_size=1, max_size=8))
     conts = ["list", "tuple", "set", "frozenset", "series", "ndarray"]
     ha, hb = draw(st.sampled_from(conts)), draw(st.sampled_from(conts))
     if draw(st.booleans()):
